@@ -148,12 +148,43 @@ class ConnCache:
         self.saved.clear()
 
 
+class HistClock:
+    """The instant an InvocationHistory entry carries (base_state_backend: datetime.now) under harness control:
+    the virtual time plus one microsecond per state-changing operation since the last tick.  Entries written by ONE
+    operation (register_new_invocations of several invocations) share one timestamp - exactly equal timestamps are what
+    the time-range iterators' batch boundaries have to survive - while different operations never collide (the SQLite
+    history key is (invocation, timestamp, status))."""
+
+    def __init__(self, clock):
+        self.clock, self.k, self.saved = clock, 0, None
+
+    def install(self):
+        import datetime as _dt
+        import pynenc.state_backend.base_state_backend as bsb
+        real, me = _dt.datetime, self
+
+        class HDatetime(real):  # type: ignore[misc,valid-type]
+            @classmethod
+            def now(cls, tz=None):
+                return real.fromtimestamp(me.clock.now, tz) + _dt.timedelta(microseconds=me.k)
+
+        self.saved = (bsb, bsb.datetime)
+        bsb.datetime = HDatetime
+        return self
+
+    def uninstall(self):
+        if self.saved:
+            self.saved[0].datetime = self.saved[1]
+            self.saved = None
+
+
 class Impl:
     """one real app per backend kind for the whole run; `reset()` gives every case brand-new component
     objects (and, for SQLite, a brand-new database file)"""
 
-    def __init__(self, kind: str, scratch: str, clock):
+    def __init__(self, kind: str, scratch: str, clock, hclock=None):
         from harness import tasks_basic
+        self.hclock = hclock
         from pynenc.arguments import Arguments
         from pynenc.call import Call
         from pynenc.invocation.dist_invocation import DistributedInvocation
@@ -181,6 +212,8 @@ class Impl:
         app = self.app
         self.n_reset += 1
         self.clock.now = T0
+        if self.hclock:
+            self.hclock.k = 0
         if self.kind == "sqlite":
             app.config_values["sqlite_db_path"] = os.path.join(self.scratch, f"c16_{self.n_reset}.db")
         app._orchestrator = app._broker = app._state_backend = app._trigger = app._client_data_store = None
@@ -228,6 +261,8 @@ class Impl:
     ERR = {"E:transition": 1, "E:ownership": 2, "E:key": 3, "E:notfound": 4}
 
     def do(self, op):
+        if self.hclock and not op[0].startswith("q_"):
+            self.hclock.k = 0 if (op[0] == "tick" and op[1] > 0) else self.hclock.k + 1
         try:
             return self._do(op)
         except Exception as ex:  # noqa: BLE001 - mapped to an enum, compared between backends and models
@@ -350,6 +385,30 @@ class Impl:
         if k == "q_rctx":
             rid = RUNNERS[op[1] - 1]
             return [[2, len([c for c in sb.get_matching_runner_contexts(rid) if c.runner_id == rid])]]
+        if k in ("q_hrange", "q_irange"):
+            # window [a, b] in clock units (b inclusive, with every sub-tick microsecond of unit b), batch size op[3]
+            import datetime as _dt
+            start = datetime.fromtimestamp(T0 + op[1] * UNIT, tz=UTC)
+            end = datetime.fromtimestamp(T0 + (op[2] + 1) * UNIT, tz=UTC) - _dt.timedelta(microseconds=1)
+            it = sb.iter_history_in_timerange if k == "q_hrange" else sb.iter_invocations_in_timerange
+            batches = [list(b) for b in it(start, end, batch_size=op[3])]
+            if any(len(b) == 0 or len(b) > op[3] for b in batches) or any(len(b) != op[3] for b in batches[:-1]):
+                return [[1, 6]]                     # batch shape: full batches, then one non-empty rest
+            flat = [x for b in batches for x in b]
+            if k == "q_irange":
+                if flat != sorted(flat) or len(set(flat)) != len(flat):
+                    return [[1, 7]]                 # documented: ordered by invocation id, each id once
+                return [[4], sorted(self.slots(flat))]
+            ts = [e.timestamp for e in flat]
+            if ts != sorted(ts):
+                return [[1, 7]]                     # documented: ordered by timestamp (order among equal ones is open)
+            return [[7]] + sorted([self.slot_of.get(e.invocation_id, 99), STATUSES.index(e.status_record.status.name),
+                                   self.rcode(e.status_record.runner_id), units(e.status_record.timestamp.timestamp())] for e in flat)
+        if k == "q_wfids":                      # implementation-vs-implementation only
+            wf = None if op[1] is None else str(self.invs[(0, 3)[op[1]]].workflow.workflow_id)
+            return [[4], sorted(self.slots(sb.get_invocation_ids_by_workflow(workflow_id=wf)))]
+        if k == "q_children":                   # implementation-vs-implementation only
+            return [[4], sorted(self.slots(sb.get_child_invocations(self.ids[op[1]])))]
         if k == "q_svc":                        # implementation-vs-implementation only (not in the models)
             rows = o.get_active_runners(None)
             return [[7]] + sorted([self.rcode(a.runner_id),
@@ -392,4 +451,5 @@ def readout_ops():
     q += [("q_stored", i) for i in range(NSLOT)]
     q += [("q_wf", k) for k in WFKEYS]
     q += [("q_rctx", r) for r in (1, 2, 3)]
+    q += [("q_hrange", 0, 100000, 2), ("q_irange", 0, 100000, 2), ("q_wfids", None), ("q_wfids", 0)]
     return q
